@@ -2,7 +2,13 @@
 
 package remote
 
-import ocispec "github.com/opencontainers/image-spec/specs-go/v1"
+import (
+	"net/http"
+	"net/url"
+	"strings"
+
+	ocispec "github.com/opencontainers/image-spec/specs-go/v1"
+)
 
 // Export shims for the verification harness (overlay only; never on disk in /repo).
 
@@ -27,4 +33,26 @@ func VerifApplyReferrerChanges(referrers []ocispec.Descriptor, adds []bool, desc
 		return nil, true, nil
 	}
 	return res, false, err
+}
+
+// VerifParseLink runs parseLink on a response carrying the given Link header, received
+// for a request to base.  kind is "" on success, else noLink|missingOpen|missingClose|parse.
+func VerifParseLink(link, base string) (string, string) {
+	u, _ := url.Parse(base)
+	resp := &http.Response{Header: http.Header{}, Request: &http.Request{URL: u}}
+	if link != "" {
+		resp.Header["Link"] = []string{link}
+	}
+	res, err := parseLink(resp)
+	switch {
+	case err == nil:
+		return res, ""
+	case err == errNoLink:
+		return "", "noLink"
+	case strings.HasSuffix(err.Error(), "missing '<'"):
+		return "", "missingOpen"
+	case strings.HasSuffix(err.Error(), "missing '>'"):
+		return "", "missingClose"
+	}
+	return "", "parse"
 }
